@@ -20,7 +20,7 @@
       PathQuery (string[..query_start], string[query_start..])          Panics.pq_*              pathquery_never_panics
       list_header (get x4)                                              Negotiate.list_header    list_header_never_panics (C06)
       parse::query, Query::insert/index_of/iterate_to_*                 Panics.query             query_never_panics
-      QueryPairIter (unwrap x5, -= 1, pairs[..index])                   Panics.qi_*              query_iter_never_panics; REPAIRED (14150b4),
+      QueryPairIter (unwrap x5, -= 1, pairs[..index])                   Panics.qi_*              query_iter_never_panics; REPAIRED (55bc7f7),
                                                                                                  query_get_last_v0_refuted
       Collection::get_from_request, get_host(..).unwrap()               Hosts.choose_host        host_choice_never_panics (C15)
       limiting::register (max_requests * 3, iteration + 1)              Limiter                  limiter_never_panics (C12)
